@@ -31,6 +31,12 @@ type c05Cell struct {
 	// the real file (runfiles trees, shared golden directories); "dup": the multi-entry file holds a second entry with an
 	// id that occurs already (a merge that kept both hunks; readers use the first). None changes what the run may write.
 	Pre string `json:"preexisting_form,omitempty"`
+	// CIEnv: on CI cells, the variable through which the run is recognised as a CI run ("" = CI=true): any of the
+	// vendor-neutral variables and vendors the ciinfo package knows
+	CIEnv string `json:"ci_env,omitempty"`
+	// ForeignCwd: the test process runs with a working directory that is not the package directory (a test binary started
+	// from the repository root, a test that changed directory)
+	ForeignCwd bool `json:"foreign_cwd,omitempty"`
 }
 
 const unsetEnv = "<unset>"
@@ -80,6 +86,10 @@ func allC05Cells(seed int) []c05Cell {
 									c.OldVal = c.Val + "x"
 								}
 								c.Ext = []string{"", "", ".txt"}[(i+seed)%3]
+								if ci {
+									c.CIEnv = []string{"", "", "BUILD_NUMBER=17", "CONTINUOUS_INTEGRATION=true", "RUN_ID=4", "CI_NAME=codeship", "GITHUB_ACTIONS=true", "BUILD_ID=9"}[(i+seed)%8]
+								}
+								c.ForeignCwd = (i+seed)%5 == 3
 								switch {
 								case (api == "snap" || api == "json" || api == "yaml") && (i+seed)%4 == 1:
 									c.Pre = "crlf"
@@ -236,7 +246,14 @@ func checkC05(c c05Cell) error {
 
 	// the run of the cell
 	run := Scenario{Tests: map[string]*Node{"TestAlpha": alpha(c.Val, true, cfgCut)}, Clean: CleanSpec{Call: true, Sort: c.Sort}}
-	res, out, err := runProgram(RunOpts{Pkg: ".", CI: c.CI, Upd: c.Upd, UpdSet: c.Upd != unsetEnv}, run)
+	cwd := ""
+	if c.ForeignCwd {
+		cwd = filepath.Join(root, "some", "other", "working", "directory")
+		os.MkdirAll(cwd, 0o755)
+		ageDir(root)
+		d0 = snapDir(root)
+	}
+	res, out, err := runProgram(RunOpts{Pkg: ".", CI: c.CI, CIEnv: c.CIEnv, Cwd: cwd, Upd: c.Upd, UpdSet: c.Upd != unsetEnv}, run)
 	if err != nil {
 		return fmt.Errorf("run: %v (%s)", err, clip(out))
 	}
@@ -398,6 +415,12 @@ func classifyC05(c c05Cell) ([]string, bool) {
 	cls = append(cls, "outcome_"+e.outcome, "api_"+c.API)
 	if c.Pre != "" {
 		cls = append(cls, "preexisting_"+c.Pre)
+	}
+	if c.CIEnv != "" {
+		cls = append(cls, "ci_detected_through_"+strings.SplitN(c.CIEnv, "=", 2)[0])
+	}
+	if c.ForeignCwd {
+		cls = append(cls, "foreign_working_directory")
 	}
 	return cls, nt
 }
